@@ -446,6 +446,28 @@ def rule_std_hash(rep):
                                         detail=got if ok else "%s; found `%s`" % (why or "must be hash_bytes(arg.data(), arg.size(), <constant>)", got))
 
 
+def rule_len(rep):
+    """std::hash hashes [data(), data() + size()): the length it passes on is what the storage policy's size() decodes.  The encoder /
+    decoder agreement of every storage layout (rule C01.enc of the fixed-string property: set_size / adjust_size folded for every
+    length 0..N, size() must give that length back) is therefore a necessary condition here and is decided again under this id."""
+    from . import c01
+    from .. import fstring as fs_
+    from ..report import Renamed
+    r2 = Renamed(rep, {"C01.enc": "C14.len"})
+    rep.rule("C14.len", "the length std::hash passes on is the string's length: for every storage layout and every length 0..N, size() decodes what "
+                        "set_size/adjust_size encoded (the packed layout's last byte read as an unsigned count, the strlen layout's terminator in place)")
+    insts = c01.INSTS["quick"]
+    d = cj.dump(fs_.driver(insts), "xtl::")
+    rep.cmd(d.cmd)
+    strs = fs_.gather(d, insts)
+    caps = {i[0]: i[2] for i in insts}
+    if set(strs) != set(caps):
+        rep.inconclusive("C14.len", "storage layouts", "instantiations", detail="found %s, expected %s" % (sorted(strs), sorted(caps)))
+        return
+    for tag in sorted(strs):
+        c01.rule_enc(r2, strs[tag], caps[tag])
+
+
 def rule_addr(rep, d, fns):
     rep.rule("C14.addr", "hash functions are address independent and effect free: no pointer-to-integer conversion, no non-local "
                          "state, callees only memcpy/load_bytes/the hash kernels, block loads through memcpy (never through a cast to a "
@@ -1142,5 +1164,6 @@ def run(tier):
     rule_tail_reads(rep, d, fns)
     rule_cursor(rep, d, fns)
     rule_const(rep, d, fns)
+    rule_len(rep)
     rep.unit("7 functions of xhash.hpp + std::hash<xbasic_fixed_string>::operator()")
     return rep
